@@ -256,6 +256,7 @@ func (w *vWorld) tid(t types.Type) int {
 }
 
 var (
+	rePosPrefix = regexp.MustCompile(`^(?:[^\s:]+:\d+(?::\d+)?: )+`)
 	reMulti    = regexp.MustCompile(`^(?:\S+ has )?multiple bindings for (.*)\ncurrent:`)
 	reBindMiss = regexp.MustCompile(`^wire\.Bind of concrete type "(.*)" to interface "(.*)", but .* does not include a provider for`)
 	reCycle    = regexp.MustCompile(`^cycle for (.*):\n`)
@@ -274,10 +275,8 @@ func natsStr(xs []int) string {
 
 // errStr classifies an error of the planner by its text (the harness controls all names).
 func (w *vWorld) errStr(e error, s *vSet) string {
-	msg := e.Error()
-	if we, ok := e.(*wireErr); ok {
-		msg = we.error.Error()
-	}
+	// the text without its position prefix (no reliance on the fields of wireErr)
+	msg := rePosPrefix.ReplaceAllString(e.Error(), "")
 	if m := reMulti.FindStringSubmatch(msg); m != nil {
 		return fmt.Sprintf("multi:%d", w.strID[m[1]])
 	}
